@@ -58,6 +58,10 @@ def states(tier):
         for si in ('pty', 'pipe', 'null', 'closed'):
             for ss in (0, 1):
                 S.append(dict(base, cwd=c, stdin=si, setsid=ss, ptyowner=1))
+    # (b2b) stdin on a pty whose device path is long (a devpts instance mounted elsewhere)
+    for ss in (0, 1):
+        for po in (0, 1, 54321):
+            S.append(dict(base, stdin='ptylong', setsid=ss, ptyowner=po))
     # (b3) env x sudo/logname x ids
     for e in ('empty', 'three', 'special', 'big', 'huge', 'malformed'):
         for su, ln in ((0, 0), (1, 0), (0, 1), (1, 1)):
